@@ -25,7 +25,7 @@ MODEL_MODULES = ['SkyllhModel.Model.Rng']
 
 # recorded values of the constants read from the source (used when extraction fails)
 _RECORDED = dict(sideRight=True, seedStart=1, seedSearchRepaired=True, workerSeedLow=0,
-                 workerSeedHigh=2 ** 32, minimizerSeedFromRss=True)
+                 workerSeedHigh=2 ** 32, minimizerSeedFromRss=True, minimizerRssForwarded=True)
 _GEN = {}
 
 
@@ -120,11 +120,28 @@ def _extract():
         seed = [k.value for k in v.keywords if k.arg == 'seed'] + list(v.args[:1])
         if len(seed) != 1:
             raise LookupError('seed')
-        vals['minimizerSeedFromRss'] = bool(
-            isinstance(seed[0], ast.Attribute) and seed[0].attr == 'seed'
-            and isinstance(seed[0].value, ast.Name) and seed[0].value.id == 'rss')
+        if isinstance(seed[0], ast.Attribute) and seed[0].attr == 'seed' and isinstance(seed[0].value, ast.Name) \
+                and seed[0].value.id == 'rss':
+            vals['minimizerSeedFromRss'] = True
+        elif isinstance(seed[0], ast.Constant):
+            vals['minimizerSeedFromRss'] = False       # a literal (None, a number): certainly not the seed of rss
+        else:
+            raise LookupError('seed expression')       # possibly equivalent: the correspondence decides
     except Exception:  # noqa
         failed.append('minimizerSeedFromRss')
+    # Analysis.do_trial: which object is forwarded as minimizer_rss to do_trial_with_given_pseudo_data
+    try:
+        f = _find(_find(_parse('skyllh/core/analysis.py'), ast.ClassDef, 'Analysis'), ast.FunctionDef, 'do_trial')
+        calls = [n for n in ast.walk(f) if isinstance(n, ast.Call) and isinstance(n.func, ast.Attribute)
+                 and n.func.attr == 'do_trial_with_given_pseudo_data']
+        if len(calls) != 1:
+            raise LookupError('do_trial_with_given_pseudo_data')
+        fw = [k.value for k in calls[0].keywords if k.arg == 'minimizer_rss']
+        if len(fw) != 1 or not isinstance(fw[0], ast.Name):
+            raise LookupError('minimizer_rss keyword')
+        vals['minimizerRssForwarded'] = fw[0].id != 'rss'
+    except Exception:  # noqa
+        failed.append('minimizerRssForwarded')
     return vals, failed
 
 
@@ -150,6 +167,8 @@ def generated(ctx):
         'def workerSeedHigh : Nat := %d' % vals['workerSeedHigh'],
         '/-- do_trial: `minimizer_rss = RandomStateService(seed=rss.seed)` when none is given -/',
         'def minimizerSeedFromRss : Bool := %s' % b(vals['minimizerSeedFromRss']),
+        '/-- do_trial hands the minimiser service it bound (not the data service `rss`) to do_trial_with_given_pseudo_data -/',
+        'def minimizerRssForwarded : Bool := %s' % b(vals['minimizerRssForwarded']),
         'end Gen.C08', ''])
 
 
@@ -529,6 +548,74 @@ def _impl_hist(file, curs, rows):
     return chosen
 
 
+def _impl_hist_shared(file, cur, pre, rows):
+    """ONE service object (already used: `pre` deviates drawn) through all extensions"""
+    from skyllh.core.utils.analysis import extend_trial_data_file
+    td = _file(file)
+    rss = _svc(cur, pre)
+    chosen = []
+    for k in rows:
+        n0 = len(td)
+        td = extend_trial_data_file(_SeedAna(), rss, k, td)
+        new = sorted(set(int(x) for x in td['seed'][n0:]))
+        chosen.append(new[0] if len(new) == 1 else -1)
+        if rss.seed != chosen[-1]:
+            chosen[-1] = -2
+    return chosen
+
+
+def o_seed_shared(ctx, case):
+    """one RandomStateService object through k successive extensions: every extension runs with a seed that is
+    not in the file yet, labels all its rows with it and leaves that seed in the caller's service"""
+    file, cur, rows = case['file'], case['cur'], case['rows']
+    try:
+        chosen = _impl_hist_shared(file, cur, case.get('pre', 0), rows)
+    except MachineryError:
+        raise
+    except Exception as e:  # noqa
+        return 'extensions with one service object raised %s: %s' % (type(e).__name__, e)
+    if -1 in chosen or -2 in chosen:
+        return ('extending file %r %d times with ONE service (initial seed %d): new rows carry several seeds or rss.seed is not the '
+                'seed of the new rows (%r)' % (file, len(rows), cur, chosen))
+    if len(set(chosen)) != len(chosen) or set(chosen) & set(file):
+        return ('extending a file with seeds %r %d times with ONE service object (initial seed %d) ran with seeds %r: not pairwise '
+                'distinct and new' % (file, len(rows), cur, chosen))
+    return None
+
+
+def o_extend_real(ctx, case):
+    """extend_trial_data_file -> create_trial_data_file -> the real Analysis.do_trials (synthetic analysis), with a
+    grid of mean_n_sig values: row count n*|grid|, every new row labelled with one seed that is new and is the
+    seed left in the service; rows of the first grid point = do_trials of a new service of that seed"""
+    from skyllh.core.utils.analysis import create_trial_data_file, extend_trial_data_file
+    c, seed, n, grid = case['cfg'], case['seed'], case['n'], case['grid']
+    ana = _mk_ana(c)
+    try:
+        with _Watchdog(120):
+            (s0, _, _, td) = create_trial_data_file(ana, _svc(seed, 0), n, mean_n_sig=grid, ncpu=1)
+            rss = _svc(seed, case.get('pre', 0))
+            chosen = []
+            for _ in range(case['k']):
+                n0 = len(td)
+                td = extend_trial_data_file(ana, rss, n, td, mean_n_sig=grid, ncpu=1)
+                new = td[n0:]
+                if len(new) != n * (int(grid[1]) - int(grid[0]) + 1):
+                    return 'extension added %d rows, expected n*|grid| = %d' % (len(new), n * (int(grid[1]) - int(grid[0]) + 1))
+                labels = sorted(set(int(x) for x in new['seed']))
+                if len(labels) != 1 or labels[0] in set(int(x) for x in td['seed'][:n0]) or rss.seed != labels[0]:
+                    return ('extension %d of a file created with seed %d (service seed %d): new rows are labelled %r, file seeds before %r, '
+                            'rss.seed after %r' % (len(chosen), seed, seed, labels, sorted(set(int(x) for x in td['seed'][:n0])), rss.seed))
+                chosen.append(labels[0])
+                ref, _, _ = _run_trials(c, labels[0], 0, n, 1, int(grid[0]), None)
+                if ref['data'].tobytes() != np.asarray(new['data'][:n]).tobytes():
+                    return 'rows labelled with seed %d were not generated from the stream of seed %d' % (labels[0], labels[0])
+    except MachineryError:
+        raise
+    except Exception as e:  # noqa
+        return 'extend_trial_data_file on the synthetic analysis raised %s: %s' % (type(e).__name__, e)
+    return None
+
+
 def o_seed_history(ctx, case):
     file, curs, rows = case['file'], case['curs'], case['rows']
     try:
@@ -805,16 +892,25 @@ def o_repro(ctx, case):
     c, seed, n, ncpu, nsig = case['cfg'], case['seed'], case['n'], case['ncpu'], case['nsig']
     from skyllh.core.random import RandomStateService
     try:
-        a, _, _ = _run_trials(c, seed, 0, n, ncpu, nsig, None)
-        # unrelated earlier use of the analysis object and of other services
+        skw = {'tag': 1}      # one dict object handed to several calls (generate_signal_events updates it)
+        a, ra, _ = _run_trials(c, seed, 0, n, ncpu, nsig, None, kwargs={'sig_kwargs': skw})
+        # unrelated earlier use of the analysis object and of other services: sequential runs, a run with
+        # several processes, a run with an explicit minimiser service, an aliased run; draws of several kinds
         for (s2, n2, nsig2) in case.get('prior', []):
-            _run_trials(c, s2, 1, n2, 1, nsig2, None)
+            _run_trials(c, s2, 1, n2, 1, nsig2, None, kwargs={'sig_kwargs': skw})
+        if case.get('prior_par'):
+            _run_trials(c, case['prior_par'], 0, 3, 2, 1, {'seed': 5, 'pre': 1})
+            _run_trials(c, case['prior_par'], 2, 2, 1, 0, 'same')
         other = RandomStateService(seed)
         other.random.random_sample(5)
-        b, _, _ = _run_trials(c, seed, 0, n, ncpu, nsig, None)
-        # a service that was used and is then reseeded behaves like a new one
+        other.random.normal(size=3)
+        other.random.poisson(2.5, size=2)
+        b, _, _ = _run_trials(c, seed, 0, n, ncpu, nsig, None, kwargs={'sig_kwargs': skw})
+        # a service that was used (an odd number of normal() calls leaves a cached Gaussian) and is then
+        # reseeded behaves like a new one
         rss = RandomStateService(case.get('other_seed', (seed + 17) % 2 ** 32))
         rss.random.random_sample(3)
+        rss.random.normal()
         rss.reseed(seed)
         with _Watchdog(120):
             d = _mk_ana(c).do_trials(rss, n, ncpu=ncpu, mean_n_sig=nsig)
@@ -832,6 +928,9 @@ def o_repro(ctx, case):
     if rss.seed != seed or not _bytes_eq(a, d):
         return ('do_trials on a service reseeded with %d differs from a new RandomStateService(%d) (n=%d, ncpu=%d, cfg=%r)'
                 % (seed, seed, n, ncpu, c))
+    if not _same_state(rss.random.get_state(), ra.random.get_state()):
+        return ('a service reseeded with %d after normal() draws is left in a different generator state (position / cached Gaussian) '
+                'than a new RandomStateService(%d) by the same do_trials call' % (seed, seed))
     return None
 
 
@@ -886,11 +985,15 @@ def o_fresh_min(ctx, case):
 
 
 def o_workers(ctx, case):
-    """per-worker seeds: a function of the parent service and ncpu only, drawn from the parent stream"""
+    """per-worker services: their seeds are the same in two runs from the same parent state, do not depend on
+    the tasks or the configuration, are valid seeds, differ from the parent seed and from each other (else
+    processes repeat each other's trials).  That they are the next raw words of the parent stream is what the
+    model says for `randint(0, 2**32)`; it is checked by the `trials` correspondence, here it is a diagnostic."""
     c, seed, ncpu, nsig = case['cfg'], case['seed'], case['ncpu'], case['nsig']
     pre = case.get('pre', 0)
     try:
         a, ra, _ = _run_trials(c, seed, pre, ncpu * 2, ncpu, nsig, None)
+        a2, _, _ = _run_trials(c, seed, pre, ncpu * 2, ncpu, nsig, None)
         c2 = dict(c)
         c2['thr'] = 1.0 - c['thr']
         b, rb, _ = _run_trials(c2, seed, pre, ncpu * 3, ncpu, 0, None)
@@ -899,17 +1002,19 @@ def o_workers(ctx, case):
     except Exception as e:  # noqa
         return 'do_trials(seed=%d, ncpu=%d) raised %s: %s' % (seed, ncpu, type(e).__name__, e)
     sa = list(dict.fromkeys(int(s) for s in a['seed']))
+    sa2 = list(dict.fromkeys(int(s) for s in a2['seed']))
     sb = list(dict.fromkeys(int(s) for s in b['seed']))
+    if sa != sa2:
+        return 'worker seeds with seed=%d, ncpu=%d differ between two runs from the same parent state: %r vs %r' % (seed, ncpu, sa, sa2)
     if sa != sb:
         return 'worker seeds with seed=%d, ncpu=%d depend on the tasks/configuration: %r vs %r' % (seed, ncpu, sa, sb)
     if len(sa) != ncpu or sa[0] != seed:
-        return 'do_trials(seed=%d, ncpu=%d): rows carry the seeds %r, expected the parent seed and %d distinct worker seeds' % (seed, ncpu, sa, ncpu - 1)
-    w = _words(seed, 2 * pre + ncpu)
-    want = [seed] + [int(x) for x in w[2 * pre: 2 * pre + ncpu - 1]]
-    if sa != want:
-        return 'do_trials(seed=%d, ncpu=%d): worker seeds %r are not the next words %r of the parent stream' % (seed, ncpu, sa[1:], want[1:])
+        return ('do_trials(seed=%d, ncpu=%d): rows carry the seeds %r, expected the parent seed and %d worker seeds different from it '
+                'and from each other' % (seed, ncpu, sa, ncpu - 1))
     if any(not (0 <= s < 2 ** 32) for s in sa):
         return 'worker seed outside [0, 2**32)'
+    w = _words(seed, 2 * pre + ncpu)
+    ctx.count('diag:worker-seeds-are-next-words=%s' % (sa == [seed] + [int(x) for x in w[2 * pre: 2 * pre + ncpu - 1]]))
     return None
 
 
@@ -924,8 +1029,7 @@ def o_times(ctx, case):
     rss = RandomStateService(seed)
     a = gen.generate_times(rss, size)
     nxt = rss.random.random_sample()
-    if nxt != np.random.RandomState(seed).random_sample(size + 1)[size]:
-        return 'generate_times(size=%d) on seed %d did not consume exactly %d uniform deviates' % (size, seed, size)
+    ctx.count('diag:generate_times-consumes-exactly-size-deviates=%s' % (nxt == np.random.RandomState(seed).random_sample(size + 1)[size]))
     other = RandomStateService((seed + 5) % 2 ** 32)
     gen.generate_times(other, 3)
     b = lt.draw_ontimes(RandomStateService(seed), size)
@@ -1080,6 +1184,8 @@ def o_corr(ctx, case):
         return _seed_compare(case, _impl_seed(case['used'], case['cur']), m)
     if k == 'hist':
         return _hist_compare(case, ctx.driver('C08', [_hist_req(case)])[0])
+    if k == 'histshared':
+        return _hist_compare(case, ctx.driver('C08', [_hist_req(case)])[0])
     if k == 'trials':
         impl, rss, mrss = _trials_impl(case)
         return _trials_compare(case, impl, rss, mrss, ctx.driver('C08', [_trials_req(case)])[0])
@@ -1098,14 +1204,24 @@ def _seed_compare(case, impl, m):
 
 
 def _hist_req(case):
+    if case['kind'] == 'histshared':
+        return 'histshared %d %s %d %s' % (_gen()['seedStart'], ilist(case['file']), case['cur'], ilist(case['rows']))
     return 'hist %d %s %s %s' % (_gen()['seedStart'], ilist(case['file']), ilist(case['curs']), ilist(case['rows']))
 
 
 def _hist_compare(case, model):
     try:
-        impl = ilist(_impl_hist(case['file'], case['curs'], case['rows']))
+        if case['kind'] == 'histshared':
+            impl = ilist(_impl_hist_shared(case['file'], case['cur'], case.get('pre', 0), case['rows']))
+        else:
+            impl = ilist(_impl_hist(case['file'], case['curs'], case['rows']))
+    except MachineryError:
+        raise
     except Exception as e:  # noqa
         impl = 'EXC:' + type(e).__name__
+    if impl != model and case['kind'] == 'histshared':
+        return 'extensions %r of file %r with one service (initial seed %d): implementation ran with seeds %s, model %s' % (
+            case['rows'], case['file'], case['cur'], impl, model)
     if impl != model:
         return 'history of extensions %r on file %r: implementation ran with seeds %s, model %s' % (
             list(zip(case['curs'], case['rows'])), case['file'], impl, model)
@@ -1116,6 +1232,7 @@ ORACLES = {
     'choice': o_choice, 'choice_stream': o_choice_stream, 'seed': o_seed, 'seed_history': o_seed_history,
     'repro': o_repro, 'nonint': o_nonint, 'fresh_min': o_fresh_min, 'workers': o_workers, 'times': o_times,
     'time_history': o_time_history, 'choice_history': o_choice_history, 'rss_history': o_rss_history,
+    'seed_shared': o_seed_shared, 'extend_real': o_extend_real,
     'corr': o_corr,
 }
 
@@ -1126,6 +1243,7 @@ _SIG = {
     'workers': 'C08/parallelize/worker-seeds-', 'times': 'C08/draw_ontimes/',
     'time_history': 'C08/draw_ontimes/history-', 'choice_history': 'C08/RandomChoice.__call__/history-',
     'rss_history': 'C08/RandomStateService/history-',
+    'seed_shared': 'C08/extend_trial_data_file/shared-service-', 'extend_real': 'C08/extend_trial_data_file/real-analysis-',
 }
 
 
@@ -1214,15 +1332,23 @@ def run(ctx):  # noqa: C901
     rng = ctx.rng
     ctx.rule = ('choice: probability vectors of 1..1e5 items (dense, with leading/trailing/scattered zeros, one-hot, exact binary '
                 'fractions, tiny weights, sums 1±5e-9, float32) probed with deviates 0, 1-2^-53, at/next to cdf entries, random, ties; '
-                'seeds: every subset of {0..6} x every current seed 0..7 (exhaustive) plus random files with duplicates and histories of '
-                'extensions; streams: synthetic analysis on the real do_trial/do_trials/parallelize/Minimizer, seeds incl. 0, prior draws '
-                'on the services, n 1..6, ncpu 1..3 (real processes), with/without an explicit minimiser service; distinct by full input')
+                'item arrays: identity, permuted, offset, repeated ints, floats, strings, structured rows (returned ITEMS compared); '
+                'seeds: every subset of {0..6} x every current seed 0..7 (exhaustive) plus random files with duplicates, histories of '
+                'extensions with new and with ONE reused service, extension through the real do_trials with mean_n_sig grids; streams: a real '
+                'LLHRatioAnalysis (stub generators + restart-stub MinimizerImpl) on the real do_trial/do_trials/parallelize/'
+                'do_trial_with_given_pseudo_data/llhratio.maximize/Minimizer, seeds incl. 0, prior draws on the services, n 0..6, ncpu 0..3 '
+                '(real processes), no / explicit / aliased minimiser service; fresh-vs-used histories on one Livetime+TimeGenerator, one '
+                'RandomChoice, one RandomStateService; distinct by full input')
     ctx.trusted_base += ['correspondence harness harness/props/c08.py (exact comparison of indices, seeds, rows)',
                          'numpy.random.RandomState (MT19937): handed to the model as word tables; its determinism is numpy\'s',
                          'numpy cumsum/searchsorted/argsort semantics re-implemented in Model/Rng.lean',
                          'IEEE rounding is outside the theorems (ordered-field statements about the choice)']
     ctx.assumptions += ['probabilities satisfy RandomChoice._assert_probabilities (non-negative, sum 1 within tolerance, no NaN)',
-                        'the data service and the minimiser service are distinct objects',
+                        'non-interference needs a minimiser service that is not the data service itself (hypothesis of c08_noninterference; '
+                        'the aliased call is modelled, compared and shown to interfere: c08_aliased_service_interferes)',
+                        'choice oracle: the cumulative bracket is checked up to sum*1e-12*n (exact fractions, n <= 4000) or sum*1e-9 (float '
+                        'prefix sums, n > 4000): a one-off index error between two items lighter than that is not seen',
+                        'how many deviates a call consumes and that worker seeds are the raw next words are diagnostics, not verdicts',
                         'trial-file seeds are the seeds of the generating services (non-negative integers)']
     cases, oracle_cases = [], []
 
@@ -1292,8 +1418,24 @@ def run(ctx):  # noqa: C901
         oracle_cases.append(('seed_history', {'file': file, 'curs': curs, 'rows': rows}))
         ctx.count('seed:history-len=%d' % k)
 
+    for _ in range(ctx.n(25, 800)):
+        file = [rng.randrange(5) for _ in range(rng.randrange(0, 6))]
+        cur = rng.choice(file) if file and rng.random() < 0.7 else rng.randrange(6)
+        rows = [rng.choice([1, 1, 2, 3]) for _ in range(rng.randrange(2, 7))]
+        hc = {'kind': 'histshared', 'file': file, 'cur': cur, 'pre': rng.choice([0, 0, 3]), 'rows': rows}
+        cases.append(hc)
+        oracle_cases.append(('seed_shared', {k: v for k, v in hc.items() if k != 'kind'}))
+        ctx.count('seed:shared-service-history-len=%d' % len(rows))
+
     # ---- streams
     seeds = [0, 1, 2, 3, 7, 42, 12345, 2 ** 31, 2 ** 32 - 1]
+    for _ in range(ctx.n(4, 40)):
+        oracle_cases.append(('extend_real', {'cfg': _gen_cfg(rng), 'seed': rng.choice([0, 1, 2, 7]), 'n': rng.choice([1, 2, 3]),
+                                             'grid': rng.choice([[0, 0], [0, 1], [1, 2]]), 'k': rng.choice([1, 2, 3]), 'pre': rng.choice([0, 2])}))
+    one_word = (_gen()['workerSeedLow'], _gen()['workerSeedHigh']) == (0, 2 ** 32)
+    if not one_word:
+        ctx.note('C08: worker seeds are drawn with randint(%d, %d): exact model comparison of multi-process runs skipped, '
+                 'property oracles only' % (_gen()['workerSeedLow'], _gen()['workerSeedHigh']))
     n_tr = ctx.n(45, 1500)
     n_par = ctx.n(8, 150)
     for j in range(n_tr):
@@ -1303,15 +1445,28 @@ def run(ctx):  # noqa: C901
                 'pre': rng.choice([0, 0, 1, 3, 10]), 'n': rng.randrange(1, 7), 'ncpu': rng.choice([2, 3]) if par else 1,
                 'nsig': rng.choice([0, 0, 1, 3]),
                 'mini': {'seed': rng.choice(seeds), 'pre': rng.choice([0, 2, 5])} if rng.random() < 0.4 else None}
+        if j % 9 == 4:
+            case['mini'] = 'same'       # minimizer_rss is rss: the one call in which restarts do shift the data stream
+        if j % 23 == 11:
+            case['n'] = 0               # error paths of do_trials: only "raises" is compared
+        if j % 23 == 17:
+            case['ncpu'] = 0
         cases.append(case)
         ctx.count('trials:ncpu=%d' % case['ncpu'])
-        ctx.count('trials:minimizer_rss=%s' % ('given' if case['mini'] else 'None'))
+        ctx.count('trials:n=%s' % ('0' if case['n'] == 0 else '>=1'))
+        ctx.count('trials:minimizer_rss=%s' % ('aliased' if case['mini'] == 'same' else 'given' if case['mini'] else 'None'))
+        if case['n'] == 0 or case['ncpu'] == 0:
+            continue
+        if case['ncpu'] > 1 and not one_word:
+            cases.pop()         # the driver's one-word model of randint(0, 2**32) does not apply: oracles only
         ctx.count('trials:prior-draws=%s' % ('yes' if case['pre'] else 'no'))
         base = {'cfg': c, 'seed': case['seed'], 'n': case['n'], 'ncpu': case['ncpu'], 'nsig': case['nsig']}
         if j % 3 == 0 or par:
             oc = dict(base)
             oc['prior'] = [[rng.choice(seeds), rng.randrange(1, 4), rng.choice([0, 2])] for _ in range(rng.randrange(0, 3))]
             oc['other_seed'] = rng.choice(seeds)
+            if par:
+                oc['prior_par'] = rng.choice(seeds)
             oracle_cases.append(('repro', oc))
         if j % 3 == 1 or par:
             oc = dict(base)
@@ -1361,8 +1516,10 @@ def run(ctx):  # noqa: C901
                 steps.append({'reseed': rng.choice(seeds)})
             else:
                 steps.append({'kind': rng.choice(['random', 'uniform', 'randint', 'poisson', 'normal', 'choice']), 'n': rng.choice([1, 1, 2, 3, 10])})
+        if j % 3 == 0:
+            steps.append({'kind': 'normal', 'n': rng.choice([1, 3])})     # leaves a cached Gaussian behind
         steps.append({'reseed': rng.choice(seeds)})
-        steps.append({'kind': rng.choice(['random', 'normal', 'randint']), 'n': 5})
+        steps.append({'kind': 'normal' if j % 3 == 0 else rng.choice(['random', 'normal', 'randint']), 'n': 5})
         oracle_cases.append(('rss_history', {'seed': rng.choice(seeds), 'steps': steps}))
 
     # ---- correspondence (one driver process for all requests)
@@ -1376,7 +1533,7 @@ def run(ctx):  # noqa: C901
         elif k == 'seed':
             reqs.append(_seed_req(c))
             impls.append((_impl_seed(c['used'], c['cur']),))
-        elif k == 'hist':
+        elif k in ('hist', 'histshared'):
             reqs.append(_hist_req(c))
             impls.append((None,))
         else:
@@ -1392,7 +1549,7 @@ def run(ctx):  # noqa: C901
             d = _choice_compare(i[0], m, c.get('items'), ctx.count)
         elif k == 'seed':
             d = _seed_compare(c, i[0], dict(x.split(':') for x in m.split(' ')))
-        elif k == 'hist':
+        elif k in ('hist', 'histshared'):
             d = _hist_compare(c, m)
         else:
             d = _trials_compare(c, i[0], i[1], i[2], m)
@@ -1457,6 +1614,10 @@ def _oracle_cases_for(c):
         return [('seed', {'used': c['used'], 'cur': c['cur'], 'rows': 1})]
     if k == 'hist':
         return [('seed_history', {'file': c['file'], 'curs': c['curs'], 'rows': c['rows']})]
+    if k == 'histshared':
+        return [('seed_shared', {x: v for x, v in c.items() if x != 'kind'})]
+    if c['n'] == 0 or c['ncpu'] == 0:
+        return []
     base = {'cfg': c['cfg'], 'seed': c['seed'], 'n': c['n'], 'ncpu': c['ncpu'], 'nsig': c['nsig']}
     cfg2 = {'thr': 1.0 if c['cfg']['thr'] < 0.6 else 0.0, 'npar': c['cfg']['npar'] + 1, 'maxrep': c['cfg']['maxrep'] + 2}
     res = [('repro', dict(base, prior=[[(c['seed'] + 1) % 2 ** 32, 2, 1]])), ('nonint', dict(base, pre=c['pre'], cfg2=cfg2, mini2=None)),
@@ -1467,19 +1628,25 @@ def _oracle_cases_for(c):
 
 
 MANIFEST = dict(
-    text=('Lean theorems on the model of skyllh\'s random handling: the data-generation side of do_trials (recorded seeds, pseudo data, '
-          'worker seeds, final stream position) is independent of the minimiser and of the minimiser service (non-interference), the '
-          'default minimiser stream is fresh in every trial, results after (re)seeding do not depend on any earlier history and histories '
-          'on other services leave a service untouched; RandomChoice as coded (argsort, sorted search, scatter) equals one inverse-CDF '
-          'look-up per deviate, returns the requested number of items, never raises and never returns an item of zero probability '
-          '(ordered field); the repaired unused-seed search returns the least seed not in the file, also along histories of extensions, '
-          'with a machine-checked counterexample for the pinned search; draws of the (cache-free) Livetime/TimeGenerator service after any '
-          'history of windowed/plain draws equal those of an untouched object. The executable model is compared exactly with RandomChoice, '
-          'extend_trial_data_file (all subsets of {0..6}) and the real do_trial/do_trials/parallelize/Minimizer on a synthetic analysis.'),
-    note=('numpy.random.RandomState is a parameter of the model (a function of seed and position); its determinism and bit-identity are '
-          'numpy\'s and enter through word tables in the correspondence and through two-run comparisons. The stream theorems are about the '
-          'model of Analysis.do_trial/do_trials; concrete background/signal generators are represented by an arbitrary function of the '
-          'stream. Choice theorems are over ordered fields, float64/float32 behaviour is compared, not proved.'),
+    text=('Lean theorems on a model of skyllh\'s random handling in which services are references into a store (aliasing expressible, '
+          'fork = copy): for a minimiser service that is not the data service — what do_trial establishes by constructing a new one — the '
+          'data side of do_trials (recorded seeds, pseudo data of master and workers, worker seeds, state of the data service) is independent '
+          'of the minimiser and of the minimiser service (c08_noninterference), with a machine-checked counterexample for minimizer_rss is '
+          'rss; the default minimiser stream is fresh in every trial; rows after (re)seeding do not depend on any earlier history, also with '
+          'an explicit minimiser service; do_trials raises exactly for n = 0 / ncpu < 1. RandomChoice as coded (argsort, sorted search, '
+          'scatter, items[idxs]) equals one inverse-CDF look-up per deviate, returns the requested number of ITEMS, never raises and never '
+          'returns an item of zero probability — over ordered fields and, without field axioms, over any linear order with a+0=a given a '
+          'sorted cdf (premise checked on the float cdf of every case). The repaired unused-seed search returns the least seed not in the '
+          'file, also along histories with new or one reused service; counterexample for the pinned search. The executable model is compared '
+          'exactly with RandomChoice (non-identity item arrays), extend_trial_data_file (all subsets of {0..6}) and a real LLHRatioAnalysis '
+          'run through do_trial/do_trials/parallelize/llhratio.maximize/Minimizer (also aliased and raising calls).'),
+    note=('numpy.random.RandomState is a parameter of the model (a function of seed and position; its Gaussian cache is not modelled): '
+          'determinism and bit-identity are numpy\'s and enter through word tables in the correspondence and through two-run comparisons of '
+          'the full generator state. Background/signal generators are an arbitrary function of the stream (stubs in the harness). The '
+          'c08_time_* theorems are conditional: they assume the cache of the Livetime/TimeGenerator object is transparent; for the real '
+          'objects that premise is only tested (fresh-vs-used histories), not proved. Choice theorems are about exact or order-level '
+          'arithmetic; float64/float32 behaviour is compared. rss.seed=None, minimiser non-convergence and RandomChoice argument '
+          'validation are not modelled.'),
     design='DESIGN.md section 4 C08',
-    technique='Lean 4 proof (induction over trial sequences and operation histories, prefix sums over ordered fields, pigeonhole) + '
-              'exact model/implementation correspondence + metamorphic two-run oracles')
+    technique='Lean 4 proof (induction over trial sequences and operation histories on a store of references, prefix sums over ordered '
+              'fields and linear orders, pigeonhole) + exact model/implementation correspondence + fresh-vs-used and two-run oracles')
